@@ -165,6 +165,9 @@ KINDS = ("mem", "local", "path", "str")
 # home-relative locations ("~/sub/x.geff" as str / Path): the caller points $HOME at a temporary
 # directory (see `home_env`); the snapshot is taken of the expanded directory
 TILDE_KINDS = ("tilde-str", "tilde-path")
+# the target is a symbolic link to the geff directory (latest.geff -> real.geff; dangling before the first
+# write); the snapshot is taken of the real directory, the store is additionally read through the link
+SYMLINK_KINDS = ("symlink-str", "symlink-path")
 
 
 @contextlib.contextmanager
@@ -202,12 +205,28 @@ class Target:
             if kind in TILDE_KINDS:
                 self.tilde = "~/sub/" + name
                 self.dir = os.path.join(os.path.realpath(tmp), "home", "sub", name)
+            elif kind in SYMLINK_KINDS:
+                self.dir = os.path.join(os.path.realpath(tmp), "real-" + name)
+                self.link = os.path.join(os.path.realpath(tmp), "latest-" + name)
+                self.ensure_link()
             else:
                 self.dir = os.path.join(os.path.realpath(tmp), name)
             self.rec = Recorder()
             self.rec.root = self.dir
             REC = self.rec
             self.mem = None
+
+    def ensure_link(self):
+        if self.kind in SYMLINK_KINDS and not os.path.lexists(self.link):
+            os.symlink(self.dir, self.link)
+
+    def setup_handle(self):
+        """where the harness itself prepares content (never through a link / unexpanded name)"""
+        if self.kind == "mem":
+            return self.mem
+        if self.kind == "local":
+            return LocalStore(self.dir)
+        return self.dir
 
     def handle(self):
         if self.kind == "mem":
@@ -220,6 +239,10 @@ class Target:
             return self.tilde
         if self.kind == "tilde-path":
             return Path(self.tilde)
+        if self.kind == "symlink-str":
+            return self.link
+        if self.kind == "symlink-path":
+            return Path(self.link)
         return self.dir
 
     def snapshot(self) -> dict[str, bytes] | None:
@@ -363,6 +386,8 @@ def metadata_for(spec: dict):
     if spec.get("extra"):
         kw["extra"] = spec["extra"]
     bad = spec.get("invalid")
+    if bad == "axis-absent":   # an axis that has no node property: found out after every array is written
+        kw["axes"] = list(kw.get("axes", [])) + [geff_spec.Axis(name="zz", type="space")]
     if bad == "meta-absent-node":
         kw["node_props_metadata"] = {"ghost": geff_spec.PropMetadata(identifier="ghost", dtype="int8")}
     if bad == "meta-absent-edge":
@@ -377,6 +402,24 @@ def corrupt(spec: dict, node_ids, node_props, edge_ids, edge_props):
         node_props["badlen"] = {"values": np.arange(len(node_ids) + 2, dtype="int64") + 1, "missing": None}
     elif bad == "len-edge":
         edge_props["badlen"] = {"values": np.arange(len(edge_ids) + 1, dtype="float64") + 1, "missing": None}
+    elif bad and bad.startswith(("vlen-", "evlen-")):
+        side, ids = (node_props, node_ids) if bad.startswith("vlen-") else (edge_props, edge_ids)
+        what = bad.split("-", 1)[1]
+        n = len(ids)
+        cnt = {"len+1": n + 1, "len-1": max(n - 1, 0), "len0": 0, "lenN": 3}.get(what, n)
+        if what == "len-1" and n == 0:
+            cnt = 1
+        v = np.empty(cnt, dtype=object)
+        for i in range(cnt):
+            v[i] = np.arange(i % 3 + 1, dtype="int64") + i
+        m = None
+        if what == "missing-len":
+            m = np.zeros(n + 1, dtype=bool)
+        elif what == "mixed-rank" and cnt:
+            v[0] = np.zeros((2, 2), dtype="int64")
+        elif what == "mixed-dtype" and cnt:
+            v[0] = np.asarray(["a", "b"])
+        side["vl"] = {"values": v, "missing": m}
     elif bad == "len-edge3":
         edge_props["badlen3"] = {"values": np.arange(3, dtype="float64") + 1 + len(edge_ids), "missing": None}
     elif bad == "len-emissing":
@@ -736,7 +779,8 @@ def model_graph(spec: dict, fmt: int, entry: str = "write_arrays", valid: bool =
 
 
 def model_kind(kind: str) -> str:
-    return {"mem": "mem", "local": "loc", "path": "path", "str": "path", "tilde-str": "path", "tilde-path": "path"}[kind]
+    return {"mem": "mem", "local": "loc", "path": "path", "str": "path", "tilde-str": "path", "tilde-path": "path",
+            "symlink-str": "path", "symlink-path": "path"}[kind]
 
 
 def model_entry(entry: str) -> str:
